@@ -178,6 +178,7 @@ def run(ctx):
     s_rerun(ctx, cli, work)
     s_edit_sequences(ctx, cli, work, rng)
     s_strace(ctx, cli, work)
+    s_readonly_update(ctx, cli, work)
     s_kill(ctx, cli, work, rng)
     shutil.rmtree(work, ignore_errors=True)
     ctx.coverage["compared_with_model"] = len(terms)
@@ -329,6 +330,36 @@ def s_strace(ctx, cli, work):
                 ctx.violation("an output path is unlinked/truncated: %s" % line.strip(), {"cli_args": args, "impl_output": line})
         if renamed != outs:
             ctx.violation("outputs %r but rename targets %r" % (sorted(outs), sorted(renamed)), {"cli_args": args, "impl_output": open(log).read()[-2000:]})
+
+
+def s_readonly_update(ctx, cli, work):
+    """a source without write permission (a read-only checkout), its outputs already there, the source edited: the update is still one rename per output --
+    nothing is unlinked first, so a kill never finds an output missing"""
+    base = os.path.join(work, "readonly")
+    os.makedirs(base)
+    src = os.path.join(base, "Form.qml")
+    open(src, "w").write(DOC_STATIC % "old title")
+    os.chmod(src, 0o444)
+    run_cli(cli, base, ["Form.qml"])
+    for out in ("form.ui", "uisupport_form.h"):
+        if os.path.exists(os.path.join(base, out)):
+            os.chmod(os.path.join(base, out), 0o444)     # whatever mode the tool gave them, the checkout may be read-only as a whole
+    os.chmod(src, 0o644)
+    open(src, "w").write(DOC_DYN)
+    os.chmod(src, 0o444)
+    log = os.path.join(work, "strace-readonly.log")
+    rc, err = run_cli(cli, base, ["Form.qml"], strace_log=log)
+    ctx.count(("strace", "readonly-update"), True)
+    if rc != 0:
+        ctx.violation("generate-ui fails to update the outputs of a read-only source: %s" % err[-300:], {"cli_args": ["Form.qml"], "impl_output": err})
+        return
+    outs = {os.path.normpath(os.path.join(base, p)) for p in ("form.ui", "uisupport_form.h")}
+    for line in open(log):
+        m = re.search(r"\b(?:unlink|unlinkat|truncate)\((?:AT_FDCWD, )?\"([^\"]*)\"", line)
+        if m and " = -1" not in line and os.path.normpath(os.path.join(base, m.group(1))) in outs:
+            ctx.violation("updating the outputs of a read-only source unlinks an output before the new one is in place: %s" % line.strip(),
+                          {"cli_args": ["Form.qml"], "history": ["chmod 0444 Form.qml", "generate-ui", "edit Form.qml (still 0444)", "generate-ui"], "impl_output": line,
+                           "theorem_or_correspondence": "C15_atomic / strace"})
 
 
 def s_kill(ctx, cli, work, rng):
